@@ -10,7 +10,7 @@
  "unwind_reason": "add_link is loop-free; the bound serves the DFCC library loops (unwinding assertions on)",
  "functions": ["misc/create_inode.c:add_link", "misc/create_inode.c:ext2_file_type"],
  "assumes": ["no contract enforced (harness CHECKs + ghost monitor in the stubs); ext2fs_read_inode / ext2fs_write_inode work on one ghost inode and may fail; ext2fs_link and ext2fs_expand_dir are stubs with harness-chosen results; com_err a no-op, gettext the identity",
-             "the inode has fewer than 65535 links before the call (i_links_count is 16 bits; the code does not test EXT2_LINK_MAX)"],
+             "the inode has fewer than 65535 links before the call (i_links_count is 16 bits; the code does not test EXT2_LINK_MAX: unit add_link_link_max / findings/C18_add_link_count_wrap)"],
  "native": false
 }
 */
@@ -27,6 +27,21 @@
  "functions": ["misc/create_inode.c:do_symlink_internal"],
  "assumes": ["no contract enforced (harness CHECKs + ghost monitor in the stubs); ext2fs_namei, ext2fs_symlink, ext2fs_expand_dir are stubs with harness-chosen results (what ext2fs_symlink stores is unit ext2fs_symlink)",
              "the link path is an arbitrary C string in an 8-byte buffer (0..7 characters, any number of '/'): B(8) for the path length only"],
+ "native": false
+}
+*/
+/* VERIF-UNIT
+{
+ "name": "add_link_link_max",
+ "props": ["C18"],
+ "level": "P",
+ "tier": "wip",
+ "harness": "h_add_link_max",
+ "includes": ["misc"],
+ "unwind": 6,
+ "unwind_reason": "as add_link",
+ "functions": ["misc/create_inode.c:add_link"],
+ "assumes": ["as add_link, WITHOUT the bound on the link count: FAILS on the pinned tree - genuine defect findings/C18_add_link_count_wrap (the 65536th link wraps i_links_count to 0, mke2fs -d exits 0 with an inconsistent image); passes with findings/C18_add_link_count_wrap/proposed-fix.patch"],
  "native": false
 }
 */
@@ -234,5 +249,23 @@ void h_do_symlink(void)
 		CHECK(r == IN.r_symlink[0] && g_expands == 0, "result of ext2fs_symlink is passed on");
 	}
 	if (slash == 3) REACH("slash-3");
+	REACH("end");
+}
+
+/* no bound on the existing link count: the stored count must never wrap (format: 16 bits, EXT2_LINK_MAX 65000) */
+void h_add_link_max(void)
+{
+	LOAD_IN();
+	struct struct_ext2_filsys *fs = malloc(sizeof(*fs));
+	ASSUME(fs != 0);
+	ASSUME(IN.r_link[0] >= 0 && IN.r_link[1] >= 0);
+	G_INODE = IN.inode;
+	g_reads = g_writes = g_links = g_expands = g_bad = 0;
+	g_path = 0;
+	g_name = "nm";
+	errcode_t r = add_link(fs, IN.parent, IN.ino, g_name);
+	CHECK(r != 0 || (unsigned int)G_INODE.i_links_count == (unsigned int)IN.inode.i_links_count + 1, "success: the stored link count is REALLY one more (no 16-bit wrap)");
+	CHECK(r != 0 || G_INODE.i_links_count <= EXT2_LINK_MAX, "success: never more links than the format allows (EXT2_LINK_MAX)");
+	CHECK(!(IN.inode.i_links_count >= EXT2_LINK_MAX) || (r != 0 && g_links == 0 && g_writes == 0), "an inode that already has the maximum number of links gets no further directory entry");
 	REACH("end");
 }
